@@ -193,6 +193,51 @@ def build(shape, n, pats):
         g.add("  m = 1")
         g.add("  call ", U(n, "PROC"), "(m)")
         g.add("end subroutine caller")
+    elif shape == "interface_body":
+        # the entity is an external function declared by an interface body: its uses lie outside the interface block
+        # (program body, internal procedure), the block only holds the declaration
+        f.add("program iface_prog")
+        f.add("  implicit none")
+        f.add("  interface")
+        f.add("    function ", D(n, "EXT"), "(a) result(r)")
+        f.add("      integer :: a, r")
+        f.add("    end function ", U(n, "EXT"))
+        f.add("  end interface")
+        f.add("  integer :: other")
+        f.add("  character(len=40) :: text")
+        f.add("  other = ", U(n, "EXT"), "(1)")
+        for p in pats:
+            if p in ("comment", "literal"):
+                emit(f, "  ", p, n, "EXT")
+        f.add("  other = ", U(n, "EXT"), "(other) + ", U(n.upper(), "EXT"), "(2)")
+        f.add("contains")
+        f.add("  integer function inner(z)")
+        f.add("    integer :: z")
+        f.add("    inner = ", U(n, "EXT"), "(z)")
+        f.add("  end function inner")
+        f.add("end program iface_prog")
+    elif shape == "abstract_interface":
+        # the entity is the name of an abstract interface body, used as procedure(name) in declarations elsewhere
+        f.add("module abs_mod")
+        f.add("  implicit none")
+        f.add("  abstract interface")
+        f.add("    subroutine ", D(n, "ABS"), "(a)")
+        f.add("      integer :: a")
+        f.add("    end subroutine ", U(n, "ABS"))
+        f.add("  end interface")
+        f.add("  procedure(", U(n, "ABS"), "), pointer :: ptr_one")
+        f.add("  character(len=40) :: text")
+        f.add("  integer :: other")
+        f.add("contains")
+        f.add("  subroutine work(cb)")
+        f.add("    procedure(", U(n, "ABS"), ") :: cb")
+        f.add("    procedure(", U(n.upper(), "ABS"), "), pointer :: ptr_two")
+        for p in pats:
+            if p in ("comment", "literal"):
+                emit(f, "    ", p, n, "ABS")
+        f.add("    call cb(1)")
+        f.add("  end subroutine work")
+        f.add("end module abs_mod")
     ws.file("helpers.f90").lines = HELPERS.rstrip("\n").split("\n")
     return ws
 
@@ -312,11 +357,18 @@ def jobs(maxlen):
                         continue
                     k += 1
                     yield (shape, n, pats, NEW_NAMES[k % len(NEW_NAMES)])
+    for shape in ("interface_body", "abstract_interface"):
+        for n in NAMES:
+            if "$" in n:
+                continue
+            for pats in ((), ("comment",), ("literal",), ("comment", "literal")):
+                k += 1
+                yield (shape, n, pats, NEW_NAMES[k % len(NEW_NAMES)])
 
 
 def main(ctx):
     maxlen = 2 if ctx.quick else 3
-    ctx.rule = (f"every sequence of <= {maxlen} distinct statement patterns from a 14-pattern alphabet x 5 scope shapes x 4 names "
+    ctx.rule = (f"every sequence of <= {maxlen} distinct statement patterns from a 14-pattern alphabet x 5 scope shapes x 4 names (plus two shapes whose entity is a procedure declared by an interface body / an abstract interface) "
                 "(i, xv, x_1, a$b); for every entity and every occurrence: references, documentHighlight; rename from the first and "
                 "last occurrence with one of 4 new names, edits applied, fresh server, definition at every occurrence. "
                 "Non-trivial: all; distinct by (shape, name, patterns).")
